@@ -164,6 +164,24 @@ theorem model_loop_step_is_tree_node (s : KSrc) (t : Nat) (c : KS.Cfg) (o : SOp)
     else (((KS.step s t c).1).th t).pc = .idle ∧ (KS.step s t c).2.filterMap KS.visitOf = [] :=
   KS.loop_step_is_tree_node s t c o visits sum n w pa hpc hlp fuel
 
+/-- the same for `fold`: the accumulator the model carries from step to step (the wrapping sum of the payloads) is the
+accumulator the translated `fold` threads through its closure calls -/
+theorem model_fold_step_is_tree_node (s : KSrc) (t : Nat) (c : KS.Cfg) (o : SOp) (visits sum n : Nat) (pa : Option Nat)
+    (hpc : (c.th t).pc = .loop o visits sum) (hlp : KS.loopParams o.op = some (n, false, pa, true)) (fuel : Nat) :
+    if c.ctr o.slot < s.len then
+      (KS.step s t c).2.filterMap KS.visitOf =
+        (KS.walk pa (visitFold (KS.sumG s) (pulled s.len n (c.ctr o.slot)) sum (specFold (ρ := Unit) s.len n (KS.sumG s) fuel)) visits).1.map
+          (fun ip => (ip.1, s.valAt ip.2)) ∧
+      ((∃ sum', (((KS.step s t c).1).th t).pc = .loop o
+          (KS.walk pa (visitFold (KS.sumG s) (pulled s.len n (c.ctr o.slot)) sum (specFold (ρ := Unit) s.len n (KS.sumG s) fuel)) visits).2.1 sum' ∧
+        (KS.walk pa (visitFold (KS.sumG s) (pulled s.len n (c.ctr o.slot)) sum (specFold (ρ := Unit) s.len n (KS.sumG s) fuel)) visits).2.2
+          = specFold s.len n (KS.sumG s) fuel sum') ∨
+       ((((KS.step s t c).1).th t).pc = .dead ∧
+        (KS.walk pa (visitFold (KS.sumG s) (pulled s.len n (c.ctr o.slot)) sum (specFold (ρ := Unit) s.len n (KS.sumG s) fuel)) visits).2.2
+          = .panic "closure"))
+    else (((KS.step s t c).1).th t).pc = .idle ∧ (KS.step s t c).2.filterMap KS.visitOf = [] :=
+  KS.fold_step_is_tree_node s t c o visits sum n pa hpc hlp fuel
+
 /-- non-vacuity: the tree of `for_each` with chunk size 2 over 3 elements, along the path on which this thread's pulls read
 0 and then 4: two closure calls (positions 0 and 1), then the return -/
 example : (match (Loops.for_each 5 ⟨3⟩ 2 {} : PF Unit Unit) with
